@@ -201,7 +201,7 @@ def oracle(parts, outcome, obs):
 
 
 CLAIM = {
-    "text": "Theorems C11_* (Coq, closed): footprints -- for every frame, each update path changes at most the fields listed for the frame's class (DF, type code, subtype), so a frame of a format that does not carry a parameter never changes it (C11_footprint_squitter_path, C11_footprint_downlink_path; per-parameter instances in C05/C06/C07/C09/C10); the reader step replaces exactly the row of the frame's address by the result of exactly one update function (C11_step_existing_row, C11_step_new_row; other rows: C03_isolation); and OVER ALL HISTORIES the latest carrier frame wins: for any projection of the row whose one-step facts hold, every trace of reader steps -- any number of reader runs, any times -- shows at each address the value of a reference fold over the same lines (C11_latest_wins_generic, C11_latest_carrier_wins), instantiated for the squawk (C06_latest_wins) and the callsign (C11_callsign_latest). The carrier table written from the property text (Spec/Carriers.v) is proved to coincide with the squitter-path footprint (C11_carrier_table_exact) and a frame that is not a carrier of a field leaves it unchanged on both paths (C11_no_crosstalk_squitter_path / _short / _ext / _downlink_path / _downlink_message); re-feeding the same decoded frame at the same instant changes nothing on the default path (C11_refeed_idempotent). Tied to the code by comparing the FULL row with the model after every prefix of histories over all supported formats (incl. registers that satisfy two registers' rules) for 1-4 aircraft with time steps, +/-U +/-R, and by an oracle for cross-talk, idempotence of re-feeding a frame and rows of other aircraft.",
+    "text": "Theorems C11_* (Coq, closed): footprints -- for every frame, each update path changes at most the fields listed for the frame's class (DF, type code, subtype), so a frame of a format that does not carry a parameter never changes it (C11_footprint_squitter_path, C11_footprint_downlink_path; per-parameter instances in C05/C06/C07/C09/C10); the reader step replaces exactly the row of the frame's address by the result of exactly one update function (C11_step_existing_row, C11_step_new_row; other rows: C03_isolation); and OVER ALL HISTORIES the latest carrier frame wins: for any projection of the row whose one-step facts hold, every trace of reader steps -- any number of reader runs, any times -- shows at each address the value of a reference fold over the same lines (C11_latest_wins_generic, C11_latest_carrier_wins), instantiated for the squawk (C06_latest_wins) and the callsign (C11_callsign_latest). The carrier table written from the property text (Spec/Carriers.v) is proved to coincide with the squitter-path footprint (C11_carrier_table_exact) and a frame that is not a carrier of a field leaves it unchanged on both paths (C11_no_crosstalk_squitter_path / _short / _ext / _downlink_path / _downlink_message); re-feeding the same decoded frame at the same instant changes nothing on the default path (C11_refeed_idempotent). Tied to the code by comparing the FULL row with the model after every prefix of histories over all supported formats (incl. registers that satisfy two registers' rules) for 1-4 aircraft with time steps, +/-U +/-R, and by an oracle for cross-talk, idempotence of re-feeding a frame and rows of other aircraft. Row creation and bookkeeping through the whole pipeline: a creating DF20/21 contributes the address only (C11_comm_b_new_row), the recorded capability is the CA field of DF11 (and of DF17 under -U) (C11_capability_df11/_df17), every applied frame refreshes the time stamp and the last-format marker is the frame's format except DF18/19 on the default path (C11_stamps_existing/_new, with a refutation witness of the unrestricted statement in Proofs/EndToEnd2.v).",
     "note": "The history theorem is instantiated for squawk and callsign; for the other parameters the per-step theorems (C05, C08, C09, C10) plus the generic history theorem apply, and the full-row correspondence after every prefix covers them; idempotence is proved for the default path (update_from_downlink) and checked by the oracle on the -U path.",
     "technique": "Coq proof: per-function footprints composed over both update paths + carrier table; per-prefix full-row differential runs + oracle",
 }
